@@ -21,11 +21,14 @@ def template():
     return al + 'const BEFORE: u32 = 7u;\nconst HOLE: f32 = 1.0;\nconst AFTER: i32 = -3;\n@fragment fn main() {}\n'
 
 
+CNAME = SymStr([('sym', 'CONSTANT_NAME')])       # the NAME of the constant under test is an abstract string
+
+
 def decode_consts(toks):
     """[(name, type text, literal token list)] of the top-level `pub const` items (SOURCE / ENTRY_* excluded)"""
     out = []
     for it in T.items(toks):
-        if it.kind == 'const' and it.name not in ('SOURCE',) and not it.name.startswith('ENTRY_'):
+        if it.kind == 'const' and it.name not in ('SOURCE',) and not (isinstance(it.name, str) and it.name.startswith('ENTRY_')):
             ty, val = T.const_parts(it)
             out.append((it.name, T.text(ty), val, it.vis))
     return out
@@ -101,7 +104,7 @@ def run(ctx):
     mj = S.dump(src)['module']
     n_types = len(mj['types'])
     gex[init] = c.sym_enum('Expression', edisc, dict({'Literal': [lit], 'ZeroValue': [zty]}, **{o: [Opaque(o)] * 3 for o in others}))
-    c.set(hole, 'name', Agg('Option', {'Some': ['HOLE'], 'None': []}, disc=z3.If(named, z3.BitVecVal(1, 64), z3.BitVecVal(0, 64))))
+    c.set(hole, 'name', Agg('Option', {'Some': [CNAME], 'None': []}, disc=z3.If(named, z3.BitVecVal(1, 64), z3.BitVecVal(0, 64))))
     finite = z3.And(z3.Not(z3.fpIsNaN(f64p)), z3.Not(z3.fpIsInf(f64p)), z3.Not(z3.fpIsNaN(f32p)), z3.Not(z3.fpIsInf(f32p)),
                     z3.Not(z3.fpIsNaN(af)), z3.Not(z3.fpIsInf(af)))
     assume = [z3.Or(edisc == X['Literal'], edisc == X['ZeroValue'], *[edisc == X[o] for o in others]), z3.ULT(ldisc, len(L)), z3.ULT(zty, n_types)]
@@ -143,7 +146,7 @@ def run(ctx):
         conds = [z3.BoolVal(emitted) == z3.And(named, z3.Or(is_lit, z3.And(is_zero, zero_scalar)))]
         if emitted:
             name, ty, val, vis = mid[0]
-            ok_shape = name == 'HOLE' and vis and len(val) == 1 and (val[0].k in ('lit', 'ident'))
+            ok_shape = name == CNAME and vis and len(val) == 1 and (val[0].k in ('lit', 'ident'))
             if not ok_shape:
                 conds.append(z3.BoolVal(False))
             else:
@@ -188,15 +191,15 @@ def run(ctx):
             seen[key] = seen.get(key, 0) + 1
             if seen[key] > 1:
                 continue
-            rep, detail = replay_zero(ctx, spelled, ZERO_TY.get(zt), model_value(m, named))
-            ctx.report(key, f'named constant `const HOLE = {spelled}();`: emitted `{" | ".join(T.text(T.items(ts.toks)[0].toks) for ts in out.items[1:-1]) or "nothing"}`',
+            rep, detail = replay_zero(ctx, spelled, ZERO_TY.get(zt), model_value(m, named), concrete_name(m, CNAME, 'HOLE'))
+            ctx.report(key, f'named constant `const {concrete_name(m, CNAME, "HOLE")} = {spelled}();`: emitted `{" | ".join(T.text(T.items(ts.toks)[0].toks) for ts in out.items[1:-1]) or "nothing"}`',
                        detail, rep, detail)
             continue
         key = f'C15/{vname}'
         seen[key] = seen.get(key, 0) + 1
         if seen[key] > 1:
             continue
-        rep, detail = replay(ctx, m, vname, payload, named, is_lit)
+        rep, detail = replay(ctx, m, vname, payload, named, is_lit, concrete_name(m, CNAME, 'HOLE'))
         ctx.report(key, f'constant of literal variant {vname}: emitted `{" | ".join(T.text(T.items(ts.toks)[0].toks) for ts in out.items[1:-1])}`',
                    detail, rep, detail)
     oks = [r for r in res if r[1] == 'ok']
@@ -225,17 +228,17 @@ def wgsl_of_type(mj, h):
     return None
 
 
-def replay_zero(ctx, spelled, rust_ty, named):
+def replay_zero(ctx, spelled, rust_ty, named, cname='HOLE'):
     if spelled is None or not named:
         return False, {'note': 'no WGSL spelling'}
-    src = f'const BEFORE: u32 = 7u;\nconst HOLE = {spelled}();\nconst AFTER: i32 = -3;\n@fragment fn main() {{}}\n'
+    src = f'const BEFORE: u32 = 7u;\nconst {cname} = {spelled}();\nconst AFTER: i32 = -3;\n@fragment fn main() {{}}\n'
     kind, toks, _ = ctx.gen_tokens(src, {})
-    det = {'wgsl': src, 'expected': f'pub const HOLE: {rust_ty} = 0;' if rust_ty else 'not exported (not a scalar)'}
+    det = {'wgsl': src, 'expected': f'pub const {cname}: {rust_ty} = 0;' if rust_ty else 'not exported (not a scalar)'}
     if kind != 'ok':
         det['real'] = f'{kind}: {toks}'
         return kind == 'panic', det
-    cs = [x for x in decode_consts(toks) if x[0] == 'HOLE']
-    det['real'] = [f'pub const HOLE: {x[1]} = {T.text(x[2])};' for x in cs] or 'not exported'
+    cs = [x for x in decode_consts(toks) if x[0] == cname]
+    det['real'] = [f'pub const {cname}: {x[1]} = {T.text(x[2])};' for x in cs] or 'not exported'
     if rust_ty is None:
         return len(cs) != 0, det
     if len(cs) != 1 or cs[0][1] != rust_ty:
@@ -286,19 +289,20 @@ def native(ctx):
             ctx.replayed_ok += 1
 
 
-def native_const(ctx, vname, bits):
+def native_const(ctx, vname, bits, cname='HOLE'):
     line = wgsl_const(vname, bits)
     if line is None:
         return None, None
+    line = line.replace('const HOLE', f'const {cname}')
     src = f'const BEFORE: u32 = 7u;\n{line}\nconst AFTER: i32 = -3;\n@fragment fn main() {{}}\n'
     kind, toks, _ = ctx.gen_tokens(src, {})
     det = {'wgsl': src, 'variant': vname, 'payload_bits': hex(bits)}
     if kind != 'ok':
         det['real'] = f'{kind}: {toks}'
         return (None, None) if kind == 'err' else (False, det)
-    cs = [x for x in decode_consts(toks) if x[0] == 'HOLE']
+    cs = [x for x in decode_consts(toks) if x[0] == cname]
     if len(cs) != 1:
-        det['real'] = 'HOLE not emitted'
+        det['real'] = f'{cname} not emitted'
         return False, det
     name, ty, val, vis = cs[0]
     det['real'] = f'pub const HOLE: {ty} = {T.text(val)};'
@@ -317,7 +321,7 @@ def native_const(ctx, vname, bits):
         return False, det
 
 
-def replay(ctx, m, vname, payload, named, is_lit):
+def replay(ctx, m, vname, payload, named, is_lit, cname='HOLE'):
     if not model_value(m, named) or not z3.is_true(m.eval(is_lit, model_completion=True)):
         return False, {'note': 'counterexample concerns an unnamed / non-literal constant; no WGSL spelling'}
     p = payload[vname]
@@ -328,7 +332,7 @@ def replay(ctx, m, vname, payload, named, is_lit):
         bits = 1 if z3.is_true(v) else 0
     else:
         bits = v.as_long()
-    ok_, det = native_const(ctx, vname, bits)
+    ok_, det = native_const(ctx, vname, bits, cname)
     if ok_ is None:
         return False, det
     return (not ok_), det
